@@ -48,6 +48,10 @@ def _case(draw):
                 max_size=2,
             )
         )
+    if draw(st.sampled_from([True, False, False, False])):
+        ws = [g.get("width", 0) for g in spec["glyphs"]]
+        spec["info"]["postscriptDefaultWidthX"] = draw(st.sampled_from(ws + [0, 500, 499.5]))
+        spec["info"]["postscriptNominalWidthX"] = draw(st.sampled_from(ws + [0, 500, 250.5, 300.25]))
     return {
         **extra,
         "spec": spec,
@@ -184,6 +188,10 @@ def classify(spec, ctx):
         ctx.label("quadratic")
     if any(c and c[0][2] == "move" for g in spec["glyphs"] for c in g.get("contours", [])):
         ctx.label("open-contour")
+    if any(list(c["t"]) == [1, 0, 0, 1, 0, 0] and gi[c["base"]].get("contours") and gi[c["base"]].get("components") for g in spec["glyphs"] for c in g.get("components", []) if c["base"] in gi):
+        ctx.label("identity-reference-to-mixed-glyph")
+    if "postscriptNominalWidthX" in spec.get("info", {}):
+        ctx.label("explicit-default/nominal-width")
     ctx.nontrivial(maxd >= 1 and frac)
 
 
